@@ -3041,15 +3041,18 @@ class LocalGitClient(GitClient):
                 # Validate all ref updates first before applying any
                 for refname, new_sha1 in new_refs.items():
                     old_sha1 = old_refs.get(refname, ZERO_SHA)
-                    if new_sha1 != ZERO_SHA:
-                        current = target.refs.get_peeled(refname)
-                        if current is not None and current != old_sha1:
+                    # get_peeled() only answers for packed refs; read the
+                    # ref itself so loose and missing refs are checked too.
+                    try:
+                        current = target.refs[refname]
+                    except KeyError:
+                        current = ZERO_SHA
+                    if current != old_sha1:
+                        if new_sha1 != ZERO_SHA:
                             ref_status[refname] = (
                                 f"unable to set {refname!r} to {new_sha1!r}"
                             )
-                    else:
-                        current = target.refs.get_peeled(refname)
-                        if current is not None and current != old_sha1:
+                        else:
                             ref_status[refname] = "unable to remove"
                 if ref_status:
                     # Atomic push: if any ref would fail, fail them all
